@@ -5,6 +5,7 @@ import (
 	"fmt"
 	"net/http"
 	"net/url"
+	"reflect"
 	"strings"
 
 	"github.com/go-fed/activity/pub"
@@ -202,6 +203,7 @@ func (s Social) SocialCallbacks(c context.Context) (pub.SocialWrappedCallbacks, 
 			func(c context.Context, v vocab.ActivityStreamsBlock) error { return a.cb(c, "SocialOther", "Block") },
 		}
 	}
+	a.keepHooks(&w, &other)
 	return w, other, nil
 }
 
@@ -295,6 +297,7 @@ func (f Fed) FederatingCallbacks(c context.Context) (pub.FederatingWrappedCallba
 			func(c context.Context, v vocab.ActivityStreamsBlock) error { return a.cb(c, "FedOther", "Block") },
 		}
 	}
+	a.keepHooks(&w, &other)
 	return w, other, nil
 }
 
@@ -347,4 +350,26 @@ func (f Fed) GetInbox(c context.Context, r *http.Request) (vocab.ActivityStreams
 	items := a.Inboxes[iri]
 	a.note(idx, c, strings.Join(items, " "))
 	return page(iri, items), nil
+}
+
+// keepHooks implements App.CBKeep: of the wrapped hooks (function-valued fields of w) and of the
+// 'other' functions only the one for the named activity type stays; everything else is nil / dropped,
+// as in an application that cares about a single activity type.
+func (a *App) keepHooks(w interface{}, other *[]interface{}) {
+	if a.CBKeep == "" {
+		return
+	}
+	v := reflect.ValueOf(w).Elem()
+	for i := 0; i < v.NumField(); i++ {
+		if v.Field(i).Kind() == reflect.Func && v.Field(i).CanSet() && v.Type().Field(i).Name != a.CBKeep {
+			v.Field(i).Set(reflect.Zero(v.Field(i).Type()))
+		}
+	}
+	var kept []interface{}
+	for _, f := range *other {
+		if strings.TrimPrefix(reflect.TypeOf(f).In(1).Name(), "ActivityStreams") == a.CBKeep {
+			kept = append(kept, f)
+		}
+	}
+	*other = kept
 }
